@@ -935,6 +935,224 @@ pub mod outbound {
 		pub fn our_node_id(&self) -> PublicKey {
 			self.keys.get_node_id(Recipient::Node).unwrap()
 		}
+
+		/// `OutboundPayments::send_payment` (find_initial_route, add_new_pending_payment,
+		/// pay_route_internal, handle_pay_route_err and the retries it chains to) for a payment of
+		/// `n_parts * amt_msat_per_part`, with a scripted router (`plan[k]` answers the k-th
+		/// `find_route` call: `Some(paths)` = a route over the first `value / amt` of these
+		/// `(scid, bad)` paths — `bad` = a path that goes through the same channel twice, refused
+		/// by pay_route_internal's parameter check —, `None` = no route) and scripted per-path
+		/// answers of `send_payment_along_path` (`answers[k]` answers the k-th call; `Ok` once
+		/// exhausted). `with_secret = false` sends without a payment secret.
+		pub fn send_with(
+			&self, id: PaymentId, hash: PaymentHash, n_parts: u64, retries: u32, with_secret: bool,
+			plan: Vec<Option<Vec<(u64, bool)>>>, answers: Vec<PathAnswer>,
+		) -> CallTrace {
+			let total = self.amt_msat * n_parts;
+			let params = PaymentParameters::from_node_id(self.dest, 40);
+			let route_params = RouteParameters::from_payment_params_and_value(params, total);
+			let onion = if with_secret {
+				RecipientOnionFields::secret_only(PaymentSecret([1; 32]), total)
+			} else {
+				RecipientOnionFields::spontaneous_empty(total)
+			};
+			let router = ScriptedRouter2::new(self.dest, self.amt_msat, plan);
+			let script = PathScript::new(answers);
+			let mut result = String::new();
+			let events = self.pushed(|s| {
+				let logger = WithContext::from(&NoLog, None, None, None);
+				let res = s.payments.send_payment(
+					hash,
+					onion,
+					id,
+					Retry::Attempts(retries),
+					route_params,
+					&router,
+					Vec::new(),
+					|| InFlightHtlcs::new(),
+					&s.keys,
+					&s.keys,
+					0,
+					&s.events,
+					|args| script.answer(args),
+					&logger,
+				);
+				result = match res {
+					Ok(()) => String::from("Ok"),
+					Err(e) => alloc::format!("{:?}", e),
+				};
+			});
+			let router_calls = router.routes.lock().unwrap().clone();
+			let path_calls = script.calls.lock().unwrap().clone();
+			CallTrace { result, events, router_calls, path_calls }
+		}
+
+		/// `check_retry_payments` with the scripted router and scripted per-path answers of
+		/// [`Self::send_with`].
+		pub fn check_retry_with(
+			&self, plan: Vec<Option<Vec<(u64, bool)>>>, answers: Vec<PathAnswer>,
+		) -> CallTrace {
+			let router = ScriptedRouter2::new(self.dest, self.amt_msat, plan);
+			let script = PathScript::new(answers);
+			let events = self.pushed(|s| {
+				let logger = WithContext::from(&NoLog, None, None, None);
+				s.payments.check_retry_payments(
+					&router,
+					|| Vec::new(),
+					|| InFlightHtlcs::new(),
+					&s.keys,
+					&s.keys,
+					0,
+					&s.events,
+					|args| script.answer(args),
+					&logger,
+				);
+			});
+			let router_calls = router.routes.lock().unwrap().clone();
+			let path_calls = script.calls.lock().unwrap().clone();
+			CallTrace { result: String::from("-"), events, router_calls, path_calls }
+		}
+
+		/// `(id, pending_amt_msat, total_msat)` of every `Retryable` entry, sorted by id.
+		pub fn amounts(&self) -> Vec<(PaymentId, u64, u64)> {
+			let map = self.payments.pending_outbound_payments.lock().unwrap();
+			let mut v: Vec<(PaymentId, u64, u64)> = map
+				.iter()
+				.filter_map(|(id, p)| match p {
+					PendingOutboundPayment::Retryable { pending_amt_msat, total_msat, .. } => {
+						Some((*id, *pending_amt_msat, *total_msat))
+					},
+					_ => None,
+				})
+				.collect();
+			v.sort_by_key(|e| e.0 .0);
+			v
+		}
+	}
+
+	/// Scripted answer of `send_payment_along_path` for one path.
+	#[derive(Clone, Copy, Debug, PartialEq, Eq)]
+	pub enum PathAnswer {
+		Ok,
+		/// `Err(APIError::MonitorUpdateInProgress)`: the HTLC is in flight
+		MonitorUpdateInProgress,
+		/// `Err(APIError::ChannelUnavailable { .. })`: the HTLC was never sent
+		ChannelUnavailable,
+	}
+
+	/// What one `send_with` / `check_retry_with` call did: the API result, the pushed events, every
+	/// `find_route` call (id, the route returned as `(scid, bad)` per path) and every
+	/// `send_payment_along_path` call (id, session priv, first-hop scid, scripted answer), in order.
+	pub struct CallTrace {
+		pub result: String,
+		pub events: Vec<String>,
+		pub router_calls: Vec<(PaymentId, Option<Vec<(u64, bool)>>)>,
+		pub path_calls: Vec<(PaymentId, [u8; 32], u64, PathAnswer)>,
+	}
+
+	struct PathScript {
+		answers: Mutex<VecDeque<PathAnswer>>,
+		calls: Mutex<Vec<(PaymentId, [u8; 32], u64, PathAnswer)>>,
+	}
+	impl PathScript {
+		fn new(answers: Vec<PathAnswer>) -> PathScript {
+			PathScript {
+				answers: Mutex::new(answers.into_iter().collect()),
+				calls: Mutex::new(Vec::new()),
+			}
+		}
+		fn answer(
+			&self, args: crate::ln::outbound_payment::SendAlongPathArgs,
+		) -> Result<(), crate::util::errors::APIError> {
+			use crate::util::errors::APIError;
+			let a = self.answers.lock().unwrap().pop_front().unwrap_or(PathAnswer::Ok);
+			self.calls.lock().unwrap().push((
+				args.payment_id,
+				args.session_priv_bytes,
+				args.path.hops[0].short_channel_id,
+				a,
+			));
+			match a {
+				PathAnswer::Ok => Ok(()),
+				PathAnswer::MonitorUpdateInProgress => Err(APIError::MonitorUpdateInProgress),
+				PathAnswer::ChannelUnavailable => Err(APIError::ChannelUnavailable {
+					err: String::from("scripted: first hop unavailable"),
+				}),
+			}
+		}
+	}
+
+	/// Router whose answers are scripted by the caller; a `bad` path goes through its channel twice.
+	struct ScriptedRouter2 {
+		dest: PublicKey,
+		amt_msat: u64,
+		plan: Mutex<VecDeque<Option<Vec<(u64, bool)>>>>,
+		routes: Mutex<Vec<(PaymentId, Option<Vec<(u64, bool)>>)>>,
+	}
+	impl ScriptedRouter2 {
+		fn new(dest: PublicKey, amt_msat: u64, plan: Vec<Option<Vec<(u64, bool)>>>) -> Self {
+			ScriptedRouter2 {
+				dest,
+				amt_msat,
+				plan: Mutex::new(plan.into_iter().collect()),
+				routes: Mutex::new(Vec::new()),
+			}
+		}
+	}
+	impl Router for ScriptedRouter2 {
+		fn find_route(
+			&self, _payer: &PublicKey, _route_params: &RouteParameters,
+			_first_hops: Option<&[&ChannelDetails]>, _inflight_htlcs: InFlightHtlcs,
+		) -> Result<Route, &'static str> {
+			Err("unused")
+		}
+		fn find_route_with_id(
+			&self, _payer: &PublicKey, route_params: &RouteParameters,
+			_first_hops: Option<&[&ChannelDetails]>, _inflight_htlcs: InFlightHtlcs,
+			_payment_hash: PaymentHash, payment_id: PaymentId,
+		) -> Result<Route, &'static str> {
+			let next = self.plan.lock().unwrap().pop_front().unwrap_or(None);
+			let total = route_params.final_value_msat;
+			let n = core::cmp::max(1, total / self.amt_msat) as usize;
+			let used = match next {
+				Some(paths) if paths.len() >= n && total % self.amt_msat == 0 => {
+					Some(paths.into_iter().take(n).collect::<Vec<_>>())
+				},
+				_ => None,
+			};
+			self.routes.lock().unwrap().push((payment_id, used.clone()));
+			match used {
+				Some(paths) => {
+					let paths = paths
+						.iter()
+						.map(|(scid, bad)| {
+							let mut p = path(self.dest, *scid, self.amt_msat);
+							if *bad {
+								let secp = Secp256k1::new();
+								let mid = PublicKey::from_secret_key(
+									&secp,
+									&SecretKey::from_slice(&[8; 32]).unwrap(),
+								);
+								let mut first = p.hops[0].clone();
+								first.pubkey = mid;
+								first.fee_msat = 0;
+								p.hops.insert(0, first);
+							}
+							p
+						})
+						.collect();
+					Ok(Route { paths, route_params: route_params.clone() })
+				},
+				None => Err("scripted: no route"),
+			}
+		}
+		fn create_blinded_payment_paths<T: secp256k1::Signing + secp256k1::Verification>(
+			&self, _recipient: PublicKey, _local_node_receive_key: ReceiveAuthKey,
+			_first_hops: Vec<ChannelDetails>, _tlvs: ReceiveTlvs, _amount_msats: Option<u64>,
+			_secp_ctx: &Secp256k1<T>,
+		) -> Result<Vec<BlindedPaymentPath>, ()> {
+			Err(())
+		}
 	}
 }
 
